@@ -10,7 +10,7 @@ NRANDOM = {"quick": 6000, "thorough": 60000}
 RUNS = {"quick": NRANDOM["quick"], "thorough": NRANDOM["thorough"] + NSWEEP1 + NSWEEP2}
 LETTERS = "xpcwre"
 RULE = ("seeded histories over the OH* alphabet (plus affinity and filler events) on 1-5 threads over 1-4 CPUs "
-        "in 1-2 looms; 1/3 of the histories carry one injected illegal move or end with a thread not dead; "
+        "in 1-2 looms (one run in 250 is a marathon of 1100-4500 legal state cycles on one or two threads); 1/3 of the histories carry one injected illegal move or end with a thread not dead; "
         "thorough adds the bounded-exhaustive sweep: all %d sequences over the six OH* letters up to length 6 on one thread and all %d up to "
         "length 4 on two threads sharing a CPU (quick samples 5%% of its runs from it); distinct = hash of the action list; non-trivial = the history contains a pause/cool/warm cycle or an injected fault") % (NSWEEP1, NSWEEP2)
 REAL = ["ovniemu (src/emu/**) built from /repo's working tree"]
@@ -49,9 +49,30 @@ def sweep_case(n):
     return {"world": desc, "actions": acts, "faults": {"bounded-exhaustive sweep member": 1}, "probes": {}, "nontrivial": True, "sweep": True}
 
 
+def marathon_case(rng):
+    """One or two threads going through thousands of legal pause/cool/warm/resume cycles: whatever the emulator
+    accumulates per state change (callbacks, stack entries, buffered output) must not run out on a long trace."""
+    r = rng.derive("marathon")
+    nth = r.choice([1, 1, 2])
+    models = r.choice([[], [], ["nosv"], ["nanos6", "openmp"]])
+    desc = {"looms": [{"name": "node.0", "phyids": [0, 1], "skew": 0,
+                       "procs": [{"pid": 10, "appid": 1, "rank": None, "nranks": None, "threads": [100 + i for i in range(nth)]}]}],
+            "models": models, "marks": {}}
+    acts = [[ti, "OHx", mgen.ohx_payload(ti, 100 + ti).hex(), None, 1] for ti in range(nth)]
+    for _ in range(r.choice([1100, 2300, 4500])):
+        ti = r.below(nth)
+        for v in r.choice(["pr", "pr", "cpr", "pwr", "cpwr"]):
+            acts.append([ti, "OH" + v, "", None, 1 + r.below(3)])
+    for ti in range(nth):
+        acts.append([ti, "OHe", "", None, 1])
+    return {"world": desc, "actions": acts, "faults": {}, "probes": {"marathon: thousands of state cycles on one thread": 1}, "nontrivial": True}
+
+
 def gen(rng, tier, idx):
     if tier == "thorough" and idx >= NRANDOM["thorough"]:
         return sweep_case(idx - NRANDOM["thorough"])
+    if idx % 250 == 123:
+        return marathon_case(rng)
     if tier == "quick" and idx % 20 == 19:
         return sweep_case(rng.derive("sweep").below(NSWEEP1 + NSWEEP2))
     desc = mgen.gen_world_desc(rng.derive("world"), nlooms=(1, 2), ncpus=(1, 4), nprocs=(1, 2), nthreads=(1, 3))
